@@ -5,14 +5,27 @@ Import ListNotations.
 
 Section Thm.
 Variable sf : key -> sid.
+Variable ns : N.
 Notation holderK := (holderK sf).
-Notation reachable := (reachable sf).
+Definition anyk : list key -> Prop := fun _ => True.
+(* reach_any: no assumption on the key lists passed to Lock; reach: every Lock gets distinct keys *)
+Definition reach_any : state -> Prop := reachable sf ns anyk.
+Definition reach : state -> Prop := reachable sf ns (@NoDup key).
+Notation reachable := reach_any.
+
+Lemma reach_reach_any s : reach s -> reach_any s.
+Proof. induction 1; [apply r_init | eapply r_step; eauto]. destruct l; simpl; auto. exact I. Qed.
+
+Lemma any_Inv s : reach_any s -> Inv sf anyk s.
+Proof. apply reachable_Inv; unfold anyk; auto. Qed.
+Lemma distinct_Inv s : reach s -> Inv sf (StronglySorted N.lt) s.
+Proof. apply reachable_Inv; [constructor | apply sort_keys_sorted]. Qed.
 
 Lemma role_of_pc s i :
   match pc s i with
   | TNew => vrole s i = RNew | TAcq => vrole s i = RAcq
   | TWait => vrole s i = if running (sch s) i then RAcq else RWait
-  | TDone => vrole s i = RDone | TUnl => vrole s i = RUnl | TRel => vrole s i = RRel
+  | TDone => vrole s i = RDone | TUnl => vrole s i = RUnl | TRel => vrole s i = RRel | TDrop => vrole s i = RDone
   end.
 Proof. unfold vrole. destruct (pc s i); auto. Qed.
 
@@ -24,14 +37,14 @@ Lemma exclusive s : reachable s ->
      forall k, In k (lkeys (locks (lat s) i)) ->
        holderK (lat s) k = Some i /\ forall j, j <> i -> ~ In k (held (locks (lat s) j))).
 Proof.
-  intros R. destruct (reachable_Inv sf s R) as [I _].
-  pose proof (i_hold _ _ _ _ _ _ _ I) as H.
+  intros R. destruct (any_Inv s R) as [[I _] _].
+  pose proof (i_hold _ _ _ _ _ _ _ _ I) as H.
   assert (U : forall i j k, In k (held (locks (lat s) i)) -> In k (held (locks (lat s) j)) -> i = j).
   { intros i j k A B. apply H in A. apply H in B. congruence. }
   split; [exact H|]. split; [exact U|].
   intros i PD NS.
   assert (FULL : held (locks (lat s) i) = lkeys (locks (lat s) i)).
-  { pose proof (i_role _ _ _ _ _ _ _ I i) as X. pose proof (role_of_pc s i) as Y. rewrite PD in Y. rewrite Y in X.
+  { pose proof (i_role _ _ _ _ _ _ _ _ I i) as X. pose proof (role_of_pc s i) as Y. rewrite PD in Y. rewrite Y in X.
     destruct X as [X|X]; [congruence|]. unfold held. rewrite X. apply firstn_all. }
   intros k KI. rewrite <- FULL in KI. split; [apply H; auto|].
   intros j NE B. apply NE. symmetry. eapply U; eauto.
@@ -41,16 +54,16 @@ Qed.
 Lemma stale_sound s i : reachable s -> lstale (locks (lat s) i) = true ->
   exists k j c, In k (lkeys (locks (lat s) i)) /\ j <> i /\ In (ERel k j c) (glog (lat s)) /\
                 (lstart (locks (lat s) i) < c)%N.
-Proof. intros R. destruct (reachable_Inv sf s R) as [I _]. apply (i_stale _ _ _ _ _ _ _ I). Qed.
+Proof. intros R. destruct (any_Inv s R) as [[I _] _]. apply (i_stale _ _ _ _ _ _ _ _ I). Qed.
 
 Lemma stale_complete s i k : reachable s -> lstale (locks (lat s) i) = false ->
   In k (held (locks (lat s) i)) -> acq_ok (glog (lat s)) i k (lstart (locks (lat s) i)).
-Proof. intros R. destruct (reachable_Inv sf s R) as [I _]. apply (i_acqok _ _ _ _ _ _ _ I). Qed.
+Proof. intros R. destruct (any_Inv s R) as [[I _] _]. apply (i_acqok _ _ _ _ _ _ _ _ I). Qed.
 
 (* every ERel entry of the log is a release performed for a lock whose UnLock was called *)
 Lemma rel_logged s k j c : reachable s -> In (ERel k j c) (glog (lat s)) -> pc s j = TUnl \/ pc s j = TRel.
 Proof.
-  intros R X. destruct (reachable_Inv sf s R) as [I _]. pose proof (i_relpc _ _ _ _ _ _ _ I k j c X) as Y.
+  intros R X. destruct (any_Inv s R) as [[I _] _]. pose proof (i_relpc _ _ _ _ _ _ _ _ I k j c X) as Y.
   pose proof (role_of_pc s j) as Z. destruct (pc s j); auto; destruct Y as [Y|Y]; rewrite Y in Z; try discriminate;
     destruct (running (sch s) j); discriminate.
 Qed.
@@ -66,22 +79,23 @@ Lemma no_lost_wakeup s : reachable s ->
                (holderK (lat s) k <> None \/ pending (lat s) (sched_wl (sch s)) k)) /\
   (forall sl, NoDup (waitS (lat s) sl)).
 Proof.
-  intros R. destruct (reachable_Inv sf s R) as [I _]. repeat split.
-  - destruct (i_wait _ _ _ _ _ _ _ I sl i H) as (A & _). apply vrole_wait in A. tauto.
-  - destruct (i_wait _ _ _ _ _ _ _ I sl i H) as (A & _). apply vrole_wait in A. tauto.
-  - destruct (i_wait _ _ _ _ _ _ _ I sl i H) as (_ & _ & A & _). auto.
-  - destruct (i_wait _ _ _ _ _ _ _ I sl i H) as (_ & _ & _ & k & A & B & _). eauto.
+  intros R. destruct (any_Inv s R) as [[I _] _]. repeat split.
+  - destruct (i_wait _ _ _ _ _ _ _ _ I sl i H) as (A & _). apply vrole_wait in A. tauto.
+  - destruct (i_wait _ _ _ _ _ _ _ _ I sl i H) as (A & _). apply vrole_wait in A. tauto.
+  - destruct (i_wait _ _ _ _ _ _ _ _ I sl i H) as (_ & _ & A & _). auto.
+  - destruct (i_wait _ _ _ _ _ _ _ _ I sl i H) as (_ & _ & _ & k & A & B & _). eauto.
   - intros (P & NR & NW & k & K & S).
-    pose proof (i_role _ _ _ _ _ _ _ I i) as X. pose proof (role_of_pc s i) as Y. rewrite P, NR in Y. rewrite Y in X.
+    pose proof (i_role _ _ _ _ _ _ _ _ I i) as X. pose proof (role_of_pc s i) as Y. rewrite P, NR in Y. rewrite Y in X.
     destruct X as [X|(k' & K' & X)]; [contradiction|]. assert (k' = k) by congruence. subst. auto.
-  - destruct (i_wait _ _ _ _ _ _ _ I sl i H) as (_ & A & _). auto.
-  - destruct (i_wait _ _ _ _ _ _ _ I sl i H) as (_ & _ & _ & k & A & B & C). eauto.
-  - apply (i_wnd _ _ _ _ _ _ _ I).
+  - destruct (i_wait _ _ _ _ _ _ _ _ I sl i H) as (_ & A & _). auto.
+  - destruct (i_wait _ _ _ _ _ _ _ _ I sl i H) as (_ & _ & _ & k & A & B & C). eauto.
+  - apply (i_wnd _ _ _ _ _ _ _ _ I).
 Qed.
 
 (* ---------- no deadlock ---------- *)
-Definition env_label (l : label) : Prop := match l with LStart _ _ _ | LRecycle _ _ => True | _ => False end.
-Definition quiescent (s : state) : Prop := forall l s', exec sf s l = Some s' -> env_label l.
+Definition env_label (l : label) : Prop :=
+  match l with LStart _ _ _ | LRecycle _ _ | LClose | LRecTask _ => True | _ => False end.
+Definition quiescent (s : state) : Prop := forall l s', exec sf ns s l = Some s' -> env_label l.
 
 Lemma argmax (f : lid -> N) (P : lid -> Prop) (l : list lid) :
   (forall x, P x \/ ~ P x) -> (exists x, In x l /\ P x) ->
@@ -104,77 +118,176 @@ Proof.
     exists a. repeat split; simpl; auto. intros y [<-|Y] PY; [lia | exfalso; apply NE; eauto].
 Qed.
 
-Lemma no_deadlock s : reachable s -> quiescent s -> forall i, pc s i = TNew \/ pc s i = TRel.
+Lemma no_deadlock s : reach s -> closed (gl s) = false -> quiescent s -> forall i, pc s i = TNew \/ pc s i = TRel.
 Proof.
-  intros R Q. destruct (reachable_Inv sf s R) as [I R2].
+  intros R NC Q. destruct (distinct_Inv s R) as [[I R2] D].
   assert (NA : forall i, pc s i <> TAcq).
   { intros i P. destruct (acquire_slot sf (lat s) i) as [L' r] eqn:A.
     eapply (Q (LAcq i)). simpl. rewrite P, A. reflexivity. }
-  assert (ND : forall i, pc s i <> TDone).
-  { intros i P. eapply (Q (LUnlock i 0%N)). simpl. rewrite P. reflexivity. }
+  assert (NDR : forall i, pc s i <> TDrop).
+  { intros i P. apply D in P. congruence. }
   assert (SI : sch s = SIdle).
-  { destruct (sch s) as [|i wl|wl|j wl] eqn:SC; auto; exfalso.
-    - simpl in I. destruct (i_rel _ _ _ _ _ _ _ I i eq_refl) as (RI & NC & POS).
+  { destruct (sch s) as [|i wl|wl|j wl|] eqn:SC; auto; exfalso.
+    - simpl in I. destruct (i_rel _ _ _ _ _ _ _ _ I i eq_refl) as (RI & NCH & POS).
       destruct (lacq (locks (lat s) i)) as [|a] eqn:AQ; [lia|].
       assert (exists k, nth_error (lkeys (locks (lat s) i)) a = Some k) as [k K].
       { destruct (nth_error (lkeys (locks (lat s) i)) a) eqn:E; eauto. apply nth_error_None in E.
-        pose proof (i_acq _ _ _ _ _ _ _ I i). lia. }
-      destruct (rel_pre_facts sf _ _ _ _ _ _ _ _ I AQ K) as (_ & _ & HK & _).
+        pose proof (i_acq _ _ _ _ _ _ _ _ I i). lia. }
+      destruct (rel_pre_facts sf _ _ _ _ _ _ _ _ _ I AQ K) as (_ & _ & HK & _).
       destruct (release_slot sf (lat s) i) as [L' r] eqn:RS.
-      destruct (release_slot_spec sf _ _ _ _ _ _ AQ K HK RS (i_q _ _ _ _ _ _ _ I)) as (EF & _).
+      destruct (release_slot_spec sf _ _ _ _ _ _ AQ K HK RS (i_q _ _ _ _ _ _ _ _ I)) as (EF & _).
       destruct r as [|w|]; [| |inversion EF].
       + destruct (lacq (locks L' i)) eqn:LA; eapply (Q LRel); simpl; rewrite SC, RS, LA; reflexivity.
       + destruct (lacq (locks L' i)) eqn:LA; eapply (Q LRel); simpl; rewrite SC, RS, LA; reflexivity.
     - destruct wl as [|j wl]; [eapply (Q LWake); simpl; rewrite SC; reflexivity|].
       destruct (lstale (locks (lat s) j)) eqn:ST; eapply (Q LWake); simpl; rewrite SC, ST; reflexivity.
-    - eapply (Q LWake); simpl; rewrite SC; reflexivity. }
+    - eapply (Q LWake); simpl; rewrite SC; reflexivity.
+    - eapply (Q LTrig); simpl; rewrite SC; reflexivity. }
   assert (CE : chan s = []).
   { destruct (chan s) as [|i rest] eqn:CH; auto. exfalso.
     destruct (lacq (locks (lat s) i)) eqn:LA; eapply (Q LPop); simpl; rewrite SI, CH, LA; reflexivity. }
+  assert (ND : forall i, pc s i <> TDone).
+  { intros i P. eapply (Q (LUnlock i 0%N)). simpl. rewrite P, NC, CE. reflexivity. }
   rewrite SI, CE in I. simpl in I.
   assert (NU : forall i, pc s i <> TUnl).
-  { intros i P. pose proof (i_role _ _ _ _ _ _ _ I i) as X. pose proof (role_of_pc s i) as Y. rewrite P in Y. rewrite Y in X.
+  { intros i P. pose proof (i_role _ _ _ _ _ _ _ _ I i) as X. pose proof (role_of_pc s i) as Y. rewrite P in Y. rewrite Y in X.
     destruct X as [[]|X]; discriminate. }
   (* a waiter with the largest next key *)
   set (f := fun i => match key_at (locks (lat s) i) with Some k => k | None => 0%N end).
   assert (DW : forall x, pc s x = TWait \/ pc s x <> TWait) by (intros x; destruct (pc s x); auto; right; discriminate).
-  intros i. destruct (pc s i) eqn:P; auto; exfalso; try (eapply NA; eauto; fail); try (eapply ND; eauto; fail); try (eapply NU; eauto; fail).
+  intros i. destruct (pc s i) eqn:P; auto; exfalso; try (eapply NA; eauto; fail); try (eapply ND; eauto; fail);
+    try (eapply NU; eauto; fail); try (eapply NDR; eauto; fail).
   assert (ST : In i (started s)).
-  { apply (i_started _ _ _ _ _ _ _ I). pose proof (role_of_pc s i) as Y. rewrite P, SI in Y. simpl in Y. congruence. }
+  { apply (i_started _ _ _ _ _ _ _ _ I). pose proof (role_of_pc s i) as Y. rewrite P, SI in Y. simpl in Y. congruence. }
   destruct (argmax f (fun x => pc s x = TWait) (started s) DW (ex_intro _ i (conj ST P))) as (m & M1 & M2 & M3).
-  pose proof (i_role _ _ _ _ _ _ _ I m) as X. pose proof (role_of_pc s m) as Y. rewrite M2, SI in Y. simpl in Y. rewrite Y in X.
+  pose proof (i_role _ _ _ _ _ _ _ _ I m) as X. pose proof (role_of_pc s m) as Y. rewrite M2, SI in Y. simpl in Y. rewrite Y in X.
   destruct X as [[]|(k & K & W)].
-  destruct (i_wait _ _ _ _ _ _ _ I _ _ W) as (_ & _ & _ & k' & K' & _ & HP).
+  destruct (i_wait _ _ _ _ _ _ _ _ I _ _ W) as (_ & _ & _ & k' & K' & _ & HP).
   assert (k' = k) by congruence. subst k'.
   destruct HP as [HP|(j & [] & _)].
   destruct (holderK (lat s) k) as [h|] eqn:HK; [|congruence].
-  apply (i_hold _ _ _ _ _ _ _ I) in HK.
+  apply (i_hold _ _ _ _ _ _ _ _ I) in HK.
   assert (PH : pc s h = TWait).
-  { pose proof (i_role _ _ _ _ _ _ _ I h) as X. pose proof (role_of_pc s h) as Z.
+  { pose proof (i_role _ _ _ _ _ _ _ _ I h) as X. pose proof (role_of_pc s h) as Z.
     assert (LA : lacq (locks (lat s) h) <> 0) by (intros E; unfold held in HK; rewrite E in HK; destruct HK).
-    destruct (pc s h) eqn:PHH; auto; exfalso; try (eapply NA; eauto; fail); try (eapply ND; eauto; fail); try (eapply NU; eauto; fail);
+    destruct (pc s h) eqn:PHH; auto; exfalso; try (eapply NA; eauto; fail); try (eapply ND; eauto; fail);
+      try (eapply NU; eauto; fail); try (eapply NDR; eauto; fail);
       rewrite Z in X; [destruct X; contradiction | contradiction]. }
   assert (SH : In h (started s)).
-  { apply (i_started _ _ _ _ _ _ _ I). pose proof (role_of_pc s h) as Z. rewrite PH, SI in Z. simpl in Z. congruence. }
-  pose proof (i_role _ _ _ _ _ _ _ I h) as X. pose proof (role_of_pc s h) as Z. rewrite PH, SI in Z. simpl in Z. rewrite Z in X.
+  { apply (i_started _ _ _ _ _ _ _ _ I). pose proof (role_of_pc s h) as Z. rewrite PH, SI in Z. simpl in Z. congruence. }
+  pose proof (i_role _ _ _ _ _ _ _ _ I h) as X. pose proof (role_of_pc s h) as Z. rewrite PH, SI in Z. simpl in Z. rewrite Z in X.
   destruct X as [[]|(kh & KH & _)].
   assert (LT : (k < kh)%N).
-  { eapply sorted_prefix_lt; [apply (i_sorted _ _ _ _ _ _ _ I h) | exact KH | exact HK]. }
+  { eapply sorted_prefix_lt; [apply (i_sorted _ _ _ _ _ _ _ _ I h) | exact KH | exact HK]. }
   specialize (M3 h SH PH). unfold f in M3. rewrite K, KH in M3. lia.
+Qed.
+
+(* Lock() never reaches its panic("should never run here"): when it returns the lock is stale or complete *)
+Lemma lock_returns_ok s i : reach_any s -> pc s i = TDone ->
+  lstale (locks (lat s) i) = true \/ lacq (locks (lat s) i) = length (lkeys (locks (lat s) i)).
+Proof.
+  intros R P. destruct (any_Inv s R) as [[I _] _].
+  pose proof (i_role _ _ _ _ _ _ _ _ I i) as X. pose proof (role_of_pc s i) as Y. rewrite P in Y. rewrite Y in X. exact X.
+Qed.
+
+(* the scheduler-glue facts: nothing is sent after Close; what was sent before is still drained *)
+Lemma closed_facts s : reach_any s ->
+  (forall i, pc s i = TDrop -> closed (gl s) = true) /\
+  (forall i, In i (chan s) -> pc s i = TUnl) /\ length (chan s) <= lock_chan_size.
+Proof.
+  intros R. split; [apply (any_Inv s R)|]. split.
+  - destruct (any_Inv s R) as [[I _] _]. intros i X. pose proof (i_chan _ _ _ _ _ _ _ _ I i X) as Y.
+    pose proof (role_of_pc s i) as Z. destruct (pc s i); auto; rewrite Y in Z; try discriminate;
+      destruct (running (sch s) i); discriminate.
+  - induction R as [|s l s' R IH AL EX]; [simpl; unfold lock_chan_size; lia|].
+    destruct l; simpl in EX; unfold sched_acq in EX;
+    repeat (match type of EX with
+            | context [match ?x with _ => _ end] => destruct x eqn:?
+            | context [if ?x then _ else _] => destruct x eqn:?
+            end; try discriminate);
+    inversion EX; subst s'; simpl; auto.
+    + rewrite app_length. simpl.
+      match goal with H : (length (chan s) <? lock_chan_size) = true |- _ => apply Nat.ltb_lt in H; lia end.
+    + simpl in IH; lia.
+    + simpl in IH; lia.
 Qed.
 
 (* runs of the automaton *)
 Fixpoint run (tr : list label) (s : state) : option state :=
   match tr with
   | [] => Some s
-  | l :: r => match exec sf s l with Some s' => run r s' | None => None end
+  | l :: r => match exec sf ns s l with Some s' => run r s' | None => None end
   end.
-Lemma run_reachable tr : forall s s', reachable s -> Forall allowed tr -> run tr s = Some s' -> reachable s'.
+Lemma run_reach tr : forall s s', reach s -> Forall (allowed (@NoDup key)) tr -> run tr s = Some s' -> reach s'.
 Proof.
   induction tr as [|l tr IH]; simpl; intros s s' R F E.
   - inversion E; subst; auto.
-  - inversion F; subst. destruct (exec sf s l) as [s1|] eqn:X; [|discriminate].
+  - inversion F; subst. destruct (exec sf ns s l) as [s1|] eqn:X; [|discriminate].
     apply (IH s1 s'); auto. eapply r_step; eauto.
+Qed.
+
+(* ---------- the composite acquire() is the iteration of the atomic LAcq steps ---------- *)
+Lemma acquire_slot_success_lock L i L1 :
+  acquire_slot sf L i = (L1, ASuccess) -> lacq (locks L i) < length (lkeys (locks L i)) ->
+  locks L1 i = set_acq (locks L i) (S (lacq (locks L i))).
+Proof.
+  intros A LT. unfold acquire_slot in A.
+  destruct (key_at (locks L i)) as [k|] eqn:K.
+  2:{ unfold key_at in K. apply nth_error_None in K. lia. }
+  unfold acquire_core in A. rewrite mr_locks in A. rewrite K in A.
+  destruct (find_node k _) as [n|].
+  - destruct (N.ltb _ _); [discriminate|]. destruct (nval n); [discriminate|].
+    inversion A; subst. simpl. rewrite Nat.eqb_refl. reflexivity.
+  - inversion A; subst. simpl. rewrite Nat.eqb_refl. reflexivity.
+Qed.
+
+Definition acq_post (r : ares) : tpc := match r with ALocked => TWait | _ => TDone end.
+
+Lemma acquire_loop_refines i L' r : forall fuel s,
+  pc s i = TAcq -> lacq (locks (lat s) i) < length (lkeys (locks (lat s) i)) ->
+  length (lkeys (locks (lat s) i)) - lacq (locks (lat s) i) <= fuel ->
+  acquire_loop sf fuel (lat s) i = (L', r) ->
+  exists n s', run (repeat (LAcq i) (S n)) s = Some s' /\ lat s' = L' /\ pc s' i = acq_post r /\
+               chan s' = chan s /\ sch s' = sch s /\ gl s' = gl s.
+Proof.
+  induction fuel as [|f IH]; intros s P LT FU A; [lia|].
+  simpl in A. destruct (Nat.ltb_spec (lacq (locks (lat s) i)) (length (lkeys (locks (lat s) i)))); [|lia].
+  destruct (acquire_slot sf (lat s) i) as [L1 r1] eqn:AS.
+  assert (EX : exec sf ns s (LAcq i) = Some (mkSt L1 (set_pc (pc s) i
+             (match r1 with ASuccess => if complete (locks L1 i) then TDone else TAcq | ALocked => TWait | AStale => TDone end))
+             (chan s) (sch s) (started s) (gl s))) by (simpl; rewrite P, AS; reflexivity).
+  destruct r1.
+  - pose proof (acquire_slot_success_lock _ _ _ AS LT) as LK.
+    destruct (complete (locks L1 i)) eqn:CP.
+    + (* complete: the loop stops *)
+      assert (A' : (L', r) = (L1, ASuccess)).
+      { rewrite <- A. destruct f; simpl; auto.
+        unfold complete in CP. apply Nat.leb_le in CP.
+        destruct (Nat.ltb_spec (lacq (locks L1 i)) (length (lkeys (locks L1 i)))); [lia | auto]. }
+      inversion A'; subst. exists 0. eexists. cbn [run repeat]. rewrite EX. split; [reflexivity|].
+      simpl. unfold set_pc. rewrite Nat.eqb_refl. auto.
+    + unfold complete in CP. apply Nat.leb_gt in CP.
+      set (s1 := mkSt L1 (set_pc (pc s) i TAcq) (chan s) (sch s) (started s) (gl s)) in *.
+      destruct (IH s1) as (n & s' & RN & E1 & E2 & E3 & E4 & E5); auto.
+      * simpl. unfold set_pc. rewrite Nat.eqb_refl. auto.
+      * simpl. rewrite LK in *. simpl in *. lia.
+      * exists (S n), s'. split; auto. change (repeat (LAcq i) (S (S n))) with (LAcq i :: repeat (LAcq i) (S n)).
+        cbn [run]. rewrite EX. exact RN.
+  - inversion A; subst. exists 0. eexists. cbn [run repeat]. rewrite EX. split; [reflexivity|].
+    simpl. unfold set_pc. rewrite Nat.eqb_refl. auto.
+  - inversion A; subst. exists 0. eexists. cbn [run repeat]. rewrite EX. split; [reflexivity|].
+    simpl. unfold set_pc. rewrite Nat.eqb_refl. auto.
+Qed.
+
+(* Lock(): the result of the composite acquire on a thread inside Lock() is reached by iterating LAcq *)
+Lemma acquire_refines s i L' r : reach_any s -> pc s i = TAcq -> acquire sf (lat s) i = (L', r) ->
+  exists n s', run (repeat (LAcq i) (S n)) s = Some s' /\ lat s' = L' /\ pc s' i = acq_post r /\
+               chan s' = chan s /\ sch s' = sch s /\ gl s' = gl s.
+Proof.
+  intros R P A. destruct (any_Inv s R) as [[I _] _].
+  pose proof (i_role _ _ _ _ _ _ _ _ I i) as X. pose proof (role_of_pc s i) as Y. rewrite P in Y. rewrite Y in X.
+  destruct X as [S LT]. unfold acquire in A. rewrite S in A.
+  apply (acquire_loop_refines i L' r (length (lkeys (locks (lat s) i))) s P LT); [lia | exact A].
 Qed.
 
 End Thm.
@@ -186,19 +299,43 @@ Definition tr_contend : list label :=
   [LStart 0 [2;1]%N 1%N; LStart 1 [2]%N 2%N; LStart 2 [2]%N 7%N; LAcq 0; LAcq 0; LAcq 1].
 Definition tr_handoff : list label := tr_contend ++ [LUnlock 0 5%N; LPop; LRel].
 Definition tr_finish : list label :=
-  tr_handoff ++ [LRel; LWake; LUnlock 1 0%N; LPop; LRel; LAcq 2; LUnlock 2 9%N; LPop; LRel].
+  tr_handoff ++ [LRel; LWake; LTrig; LUnlock 1 0%N; LPop; LRel; LTrig; LAcq 2; LUnlock 2 9%N; LPop; LRel; LTrig].
+(* Close() while T1 waits behind T0; T0's UnLock then sends nothing *)
+Definition tr_closed : list label :=
+  [LStart 0 [2;1]%N 1%N; LStart 1 [2]%N 2%N; LAcq 0; LAcq 0; LAcq 1; LClose; LUnlock 0 5%N].
 
-Lemma allowed_tr_finish : Forall allowed tr_finish.
+Lemma allowed_tr_finish : Forall (allowed (@NoDup key)) tr_finish.
 Proof. repeat constructor; simpl; auto; intros [H|[]]; discriminate. Qed.
 
 (* a Lock with a duplicated key blocks on itself: the hypothesis "distinct keys" of no_deadlock is necessary *)
 Lemma dup_key_self_deadlock :
-  exists s, run sf0 [LStart 0 [1;1]%N 5%N; LAcq 0; LAcq 0] init_state = Some s /\ pc s 0 = TWait /\ In 0 (waitS (lat s) 0%N) /\ quiescent sf0 s.
+  exists s, run sf0 1 [LStart 0 [1;1]%N 5%N; LAcq 0; LAcq 0] init_state = Some s /\ pc s 0 = TWait /\
+            In 0 (waitS (lat s) 0%N) /\ closed (gl s) = false /\ quiescent sf0 1 s.
 Proof.
-  eexists. split; [vm_compute; reflexivity|]. split; [reflexivity|]. split; [left; reflexivity|].
+  eexists. split; [vm_compute; reflexivity|]. split; [reflexivity|]. split; [left; reflexivity|]. split; [reflexivity|].
   intros l s' E. destruct l; simpl; auto.
   - destruct i as [|i]; simpl in E; discriminate.
   - destruct i as [|i]; simpl in E; discriminate.
+  - simpl in E. discriminate.
+  - simpl in E. discriminate.
+  - simpl in E. discriminate.
+  - simpl in E. discriminate.
+Qed.
+
+(* after Close() the lock of a later UnLock is dropped: its latches stay held and a blocked Lock() never returns *)
+Lemma closed_strands_waiter :
+  exists s, run sf0 1 tr_closed init_state = Some s /\ reach sf0 1 s /\ closed (gl s) = true /\
+            pc s 0 = TDrop /\ pc s 1 = TWait /\ holderK sf0 (lat s) 2%N = Some 0 /\ quiescent sf0 1 s.
+Proof.
+  destruct (run sf0 1 tr_closed init_state) as [s|] eqn:E; [|vm_compute in E; discriminate].
+  exists s. split; auto. split.
+  { eapply run_reach; [apply r_init | | exact E]. repeat constructor; simpl; auto; intros [H|[]]; discriminate. }
+  vm_compute in E. inversion E; subst s; clear E.
+  split; [reflexivity|]. split; [reflexivity|]. split; [reflexivity|]. split; [reflexivity|].
+  intros l s' E. destruct l; simpl; auto.
+  - destruct i as [|[|i]]; simpl in E; discriminate.
+  - destruct i as [|[|i]]; simpl in E; discriminate.
+  - simpl in E. discriminate.
   - simpl in E. discriminate.
   - simpl in E. discriminate.
   - simpl in E. discriminate.
